@@ -547,7 +547,7 @@ pub fn enumerate(bases: &[Base], ctx: &Ctx, want: &dyn Fn(u64) -> bool, f: &mut 
         v.push(5000);
         v
     };
-    for &t in &[3, 15, 23, 8, 18, 31] {
+    for &t in &[3, 15, 23, 8, 18, 28, 31] {
         for &real in &reals {
             for k in [14u32, 17, 20, 22, 24, 27, 28, 30] {
                 if (1usize << k) <= real {
@@ -611,6 +611,18 @@ pub fn enumerate(bases: &[Base], ctx: &Ctx, want: &dyn Fn(u64) -> bool, f: &mut 
                 }
             }
         }
+        // (h') VALID files of thousands of tiny records: what is reserved per record adds up as well
+        for &t in &[8, 18, 28, 3, 5, 1] {
+            for with_shx in [false, true] {
+                case!({
+                    let mut r = crate::rng::Rng::new(t as u64 * 104_729 + 17);
+                    let small = Cfg::plain(1, 2);
+                    let v: Vec<Shape> = (0..2500).map(|_| gen::shape_exact(t, &mut r, &small, 1, if gen::is_polyline(t) { 2 } else { 1 })).collect();
+                    let (shp, shx) = crate::shapes::write_all_mem(&v, true).expect("harness: writing a file of many records failed");
+                    Input { shp, shx: if with_shx { Some(shx) } else { None }, desc: format!("valid file, t{}: 2500 records of one part and one or two vertices, shx={}", t, with_shx), class: "h:valid-large-amounts" }
+                });
+            }
+        }
         // (e'') a forged PART count that record length and header length vouch for: 2^k parts, no points
         for &t in &[3, 5, 13, 15, 23, 25, 31] {
             for k in [14u32, 18, 22, 26] {
@@ -640,8 +652,8 @@ pub fn enumerate(bases: &[Base], ctx: &Ctx, want: &dyn Fn(u64) -> bool, f: &mut 
             }
         }
         // (f') more than 2^16 points really present behind a much larger declared count
-        for &t in &[3, 18] {
-            for &real in &[65_537usize, 70_000] {
+        for &t in &[3, 18, 28] {
+            for &real in &[65_537usize, 70_000, 140_000] {
                 case!({
                     Input { shp: partially_backed(t, 26, real, 0), shx: None, desc: format!("t{} declares 2^26 points, {} really present", t, real), class: "f:partially-backed-counts" }
                 });
@@ -837,6 +849,13 @@ impl<'a> Exerciser<'a> {
                     });
                     let p = shp_path.clone();
                     self.call("read_shapes(path)", move || shapefile::read_shapes(&p).map(|v| v.len()).ok());
+                    // the complete one-liners, a small valid table next to the hostile files
+                    if std::fs::write(format!("{}.dbf", base), valid_dbf()).is_ok() {
+                        let p = shp_path.clone();
+                        self.call("shapefile::read(path)", move || shapefile::read(&p).map(|v| v.len()).ok());
+                        let p = shp_path.clone();
+                        self.call("Reader::from_path+read", move || Reader::from_path(&p).and_then(|mut r| r.read()).map(|v| v.len()).ok());
+                    }
                 }
             }
         }
